@@ -429,7 +429,11 @@ func RunC12(run *vk.Run) {
 			}
 			st2 := st.clone()
 			h2 := append(append([]CmdSpec{}, hist...), kid.cmd)
-			checkCommand(run, b, &st2, kid.cmd, Tn(depth+1), h2)
+			at := Tn(depth + 1)
+			if kid.cmd.Kind == "rotate" && (len(k)+depth)%3 == 0 {
+				at = T0.AddDate(24, 0, depth) // late in the root's 25-year validity
+			}
+			checkCommand(run, b, &st2, kid.cmd, at, h2)
 			run.Case(fmt.Sprintf("%v|%v", a.Combo, h2), true)
 			if depth == 1 && k == keys[len(keys)/2] {
 				run.Sample(map[string]any{"combo": a.Combo.String(), "history": fmt.Sprint(h2)})
